@@ -4,11 +4,26 @@
   (`extract/src/targets/c08.rs`, target `c08order`), pinned to the sequences
   the structured lowering model (`Model/LowerS.lean`) and the order
   specification were written against: calls on `self` in evaluation order,
-  the iterator adaptors of the loops over arguments / fields / elements / arms,
-  `Value::…` and `Expr::BinOp` constructions, control-flow markers. Arguments
-  that are plain local names appear as `v0, v1, …` (order of first use), so a
-  consistent renaming of a local leaves the skeleton unchanged. Drop
-  bookkeeping (C03's subject) is left out by the translator.
+  the loops over arguments / fields / elements / arms, `Value::…` and
+  `Expr::BinOp` constructions, control-flow markers — in a normal form (see the
+  head of `extract/src/targets/c08.rs`): locals are numbered per BINDING in order
+  of first appearance (`vN=step` where a `let` names the result of a step), so
+  renaming a local or un-shadowing two `let val` changes nothing while using a
+  different variable does; `for x in XS`, `XS.iter().map(..).collect()` and
+  `ys.extend(XS.iter().map(..))` are all `loop(XS) … endloop` (`loop-rev` with a
+  `.rev()`); `if let P = e {A} else {B}` is the two-arm `match`; an `if` ending in
+  `return` takes the rest of the block as its else-branch and a tail `return` is
+  the tail value; arms over unit variants are sorted and the last arm of a `match`
+  (no guard, no binder) is `arm(_)`; a loop / branch / closure in which nothing is
+  recorded leaves no marker and a call of a helper of `Lowerer` that does nothing
+  but drop bookkeeping is not a step (that removes the drop bookkeeping, C03's
+  subject). Eleven behaviour-preserving refactorings of the lowering
+  (seeded/harmless H9–H14, H16–H19, H55: iterator chain ↔ `for`, reordered
+  disjoint arms, renamed / un-shadowed locals, `match` ↔ `if let`, `if let …
+  return` → `match`, a drop loop moved into a helper) leave every skeleton below
+  unchanged; H15 (a sub-expression of a recorded argument moved into a local of
+  its own) does not — that shape needs a re-pin; every seeded order defect changes
+  at least one.
 
   A regrouped, reversed, dropped or duplicated step changes the generated
   definition and the theorem below stops checking; the check then searches for
@@ -22,533 +37,432 @@ open RotoV.Gen
 /-- `binop`: the `==` / `!=` paths and the general path all run `expr l; assign_to_var l; expr r; assign_to_var r` — the left operand is materialised before the right one is lowered (`LowerS.lowerE`, case `.bin`); `&&`/`||` go to `shortcircuit_binop`. -/
 theorem source_binop : LowerOrder.binop = [
   "if",
-  "self.expr(v0)",
-  "self.assign_to_var(v1,v2)",
-  "self.expr(v3)",
-  "self.assign_to_var(v4,v5)",
-  "Value::BinOp{left:v1,binop:ast::BinOp::Eq,ty:v2,right:v4}",
-  "return",
-  "endif",
+  "v0=self.expr(v1)",
+  "v2=self.assign_to_var(v0,v3)",
+  "v4=self.expr(v5)",
+  "v6=self.assign_to_var(v4,v7)",
+  "Value::BinOp{left:v2,binop:ast::BinOp::Eq,ty:v3,right:v6}",
+  "else",
   "if",
-  "self.expr(v0)",
-  "self.assign_to_var(v1,v2)",
-  "self.expr(v3)",
-  "self.assign_to_var(v4,v5)",
-  "Value::BinOp{left:v1,binop:ast::BinOp::Ne,ty:v2,right:v4}",
-  "return",
-  "endif",
+  "v8=self.expr(v1)",
+  "v9=self.assign_to_var(v8,v10)",
+  "v11=self.expr(v5)",
+  "v12=self.assign_to_var(v11,v13)",
+  "Value::BinOp{left:v9,binop:ast::BinOp::Ne,ty:v10,right:v12}",
+  "else",
   "if",
-  "self.binop_str(v0,v6,v3)",
-  "return",
-  "endif",
+  "self.binop_str(v1,v14,v5)",
+  "else",
   "if",
-  "self.binop_ip_addr(v0,v6,v3)",
-  "return",
-  "endif",
+  "self.binop_ip_addr(v1,v14,v5)",
+  "else",
   "if",
-  "self.binop_list(v2,v0,v6,v3)",
-  "return",
-  "endif",
+  "self.binop_list(v15,v1,v14,v5)",
+  "else",
   "if",
-  "self.binop_and(v0,v3)",
-  "return",
-  "endif",
+  "self.binop_and(v1,v5)",
+  "else",
   "if",
-  "self.binop_or(v0,v3)",
-  "return",
+  "self.binop_or(v1,v5)",
+  "else",
+  "v16=self.expr(v1)",
+  "v17=self.assign_to_var(v16,v18)",
+  "v19=self.expr(v5)",
+  "v20=self.assign_to_var(v19,v21)",
+  "Value::BinOp{left:v17,binop:*v14,ty:v18,right:v20}",
   "endif",
-  "self.expr(v0)",
-  "self.assign_to_var(v0,v2)",
-  "self.expr(v3)",
-  "self.assign_to_var(v3,v5)",
-  "Value::BinOp{left:v0,binop:*binop,ty:v2,right:v3}"
+  "endif",
+  "endif",
+  "endif",
+  "endif",
+  "endif",
+  "endif"
 ] := rfl
 
-/-- `normalizedFunctionCall`: the receiver is stored in its temporary first; then `arguments.iter()` (not reversed): each argument is lowered and stored before the next (`LowerS.lowerArgs`). `for(&args)` is the loop that takes the argument temporaries off the list of live variables right before the call value is built (fix 176e3ed; it emits nothing). -/
+/-- `normalizedFunctionCall`: the receiver is stored in its temporary first; then `loop(arguments)` (not reversed): each argument is lowered and stored before the next (`LowerS.lowerArgs`). (The loop that takes the argument temporaries off the list of live variables right before the call value is built, fix 176e3ed, records nothing and leaves no marker.) -/
 theorem source_normalized_function_call : LowerOrder.normalizedFunctionCall = [
-  "if",
-  "self.undropped_tmp()",
-  "self.do_assign(Place::new(tmp.clone(),ty),v0,v1)",
-  "endif",
-  "arguments.iter",
-  "closure",
-  "self.expr(v2)",
-  "self.undropped_tmp()",
-  "self.do_assign(Place::new(tmp.clone(),ty),v0,v3)",
-  "endclosure",
-  "arguments.iter().map",
-  "args.extend",
-  "for(&args)",
-  "endfor",
-  "func.signature.parameter_types.iter",
-  "closure",
-  "endclosure",
-  "func.signature.parameter_types.iter().map",
-  "….collect",
-  "match(func.definition)",
-  "arm(FunctionDefinition::Runtime(func_ref))",
-  "for(&self.runtime.get_function(func_ref).vtables)",
-  "endfor",
-  "Value::CallRuntime{func_ref:v4,args:v5,mir_signature:v6,vtables:v7}",
-  "arm(FunctionDefinition::Roto)",
-  "Value::Call{func:v8,args:v5,mir_signature:v6}",
+  "match(v0)",
+  "arm(Some((_,_)))",
+  "v1=self.undropped_tmp()",
+  "self.do_assign(Place::new(v1.clone(),v2),v2,v3)",
+  "arm(_)",
+  "endmatch",
+  "loop(v4)",
+  "v5=self.expr(v6)",
+  "v7=self.undropped_tmp()",
+  "self.do_assign(Place::new(v7.clone(),v8),v8,v5)",
+  "endloop",
+  "match(v9.definition)",
+  "arm(FunctionDefinition::Runtime(_))",
+  "Value::CallRuntime{func_ref:v10,args:v11,mir_signature:v12,vtables:v13}",
+  "arm(_)",
+  "Value::Call{func:v14,args:v11,mir_signature:v12}",
   "endmatch"
 ] := rfl
 
 /-- `functionCall`: a method call on an expression lowers the receiver expression first (`self.expr(e)`), then hands it to `normalized_function_call`. -/
 theorem source_function_call : LowerOrder.functionCall = [
-  "match(&function.node)",
-  "arm(ast::Expr::Path(p))",
-  "match(resolved_path)",
-  "arm(ResolvedPath::Method{value,signature,..})",
-  "self.path_value(&value.clone())",
-  "self.normalized_function_call(&v0,Some((op,ty)),v1)",
+  "match(&v0.node)",
+  "arm(ast::Expr::Path(_))",
+  "match(v1)",
+  "arm(ResolvedPath::Method{_,_,..})",
+  "v2=self.path_value(&v3.clone())",
+  "self.normalized_function_call(&v4,Some((v2,v5)),v6)",
   "arm(ResolvedPath::Function{..}|ResolvedPath::StaticMethod{..})",
-  "self.normalized_function_call(&v0,None,v1)",
-  "arm(ResolvedPath::EnumConstructor{ty:_,variant})",
-  "self.enum_constructor(v2,variant.name,v1)",
-  "arm(ResolvedPath::Value{..})",
+  "self.normalized_function_call(&v7,None,v6)",
+  "arm(ResolvedPath::EnumConstructor{ty:_,_})",
+  "self.enum_constructor(v8,v9.name,v6)",
+  "arm(_)",
   "endmatch",
-  "arm(ast::Expr::Access(e,_))",
-  "self.expr(v3)",
-  "self.normalized_function_call(&v0,Some((expr,ty)),v1)",
+  "arm(ast::Expr::Access(_,_))",
+  "v10=self.expr(v11)",
+  "self.normalized_function_call(&v12,Some((v10,v13)),v6)",
   "arm(_)",
   "endmatch"
 ] := rfl
 
 /-- `shortcircuitBinop`: result temporary, left operand, store, switch, new block, right operand, store, jump (`LowerS.shortCircuit`). -/
 theorem source_shortcircuit_binop : LowerOrder.shortcircuitBinop = [
-  "self.undropped_tmp()",
-  "self.expr(v0)",
-  "self.do_assign(Place::new(tmp.clone(),TyRef::BOOL),TyRef::BOOL,v1)",
-  "self.emit_switch(tmp.clone(),vec![(other_if,lbl_other)],Some(lbl_cont))",
-  "self.new_block(v2)",
-  "self.expr(v3)",
-  "self.do_assign(Place::new(tmp.clone(),TyRef::BOOL),TyRef::BOOL,v1)",
-  "self.emit_jump(v4)",
-  "self.new_block(v4)"
+  "v0=self.undropped_tmp()",
+  "v1=self.expr(v2)",
+  "self.do_assign(Place::new(v0.clone(),TyRef::BOOL),TyRef::BOOL,v1)",
+  "self.emit_switch(v0.clone(),vec![(v3,v4)],Some(v5))",
+  "self.new_block(v4)",
+  "v6=self.expr(v7)",
+  "self.do_assign(Place::new(v0.clone(),TyRef::BOOL),TyRef::BOOL,v6)",
+  "self.emit_jump(v5)",
+  "self.new_block(v5)"
 ] := rfl
 
 /-- `compoundAssign`: `x op= e` becomes `Expr::BinOp(x, op, e)` — the target is the LEFT operand — assigned to `x` (`LowerS.lowerE`, case `.cassign`). -/
 theorem source_compound_assign : LowerOrder.compoundAssign = [
-  "match(c.op)",
-  "arm(CompoundAssignOp::Add)",
-  "arm(CompoundAssignOp::Sub)",
-  "arm(CompoundAssignOp::Mul)",
-  "arm(CompoundAssignOp::Div)",
-  "arm(CompoundAssignOp::Mod)",
-  "endmatch",
-  "Expr::BinOp(Box::new(left),op,c.expr.clone())",
-  "self.assign(&c.path,&v0)"
+  "Expr::BinOp(Box::new(v0),v1,v2.expr.clone())",
+  "self.assign(&v2.path,&v3)"
 ] := rfl
 
 /-- `assign`: value lowered, stored in a fresh temporary, then moved into the variable. -/
 theorem source_assign : LowerOrder.assign = [
-  "fields.iter",
-  "closure",
-  "endclosure",
-  "fields.iter().map",
-  "….collect",
-  "self.expr(v0)",
-  "self.tmp(v1)",
-  "self.do_assign(Place::new(tmp.clone(),ty),v1,v2)",
-  "self.do_assign(v3,v1,Value::Move(tmp))"
+  "v0=self.expr(v1)",
+  "v2=self.tmp(v3)",
+  "self.do_assign(Place::new(v2.clone(),v3),v3,v0)",
+  "self.do_assign(v4,v3,Value::Move(v2))"
 ] := rfl
 
 /-- `ifElse`: condition materialised; switch; then-block, result temporary allocated after it; else-block. -/
 theorem source_if_else : LowerOrder.ifElse = [
-  "self.expr(v0)",
-  "self.assign_to_var(v1,TyRef::BOOL)",
-  "if",
-  "else",
-  "endif",
-  "self.emit_switch(v1,v2,Some(ifr#else.is_some(){lbl_else}else{lbl_cont}))",
-  "self.new_block(v3)",
-  "self.block(v4)",
-  "self.undropped_tmp()",
-  "self.emit_assign(Place::new(res.clone(),ty),v5,v6)",
-  "self.emit_jump(v7)",
-  "if",
-  "self.new_block(v8)",
-  "self.block(r#else)",
-  "self.emit_assign(Place::new(res.clone(),ty),v5,v6)",
-  "self.emit_jump(v7)",
-  "endif",
-  "self.new_block(v7)"
+  "v0=self.expr(v1)",
+  "v2=self.assign_to_var(v0,TyRef::BOOL)",
+  "self.emit_switch(v2,v3,Some(ifv4.is_some(){v5}else{v6}))",
+  "self.new_block(v7)",
+  "v8=self.block(v9)",
+  "v10=self.undropped_tmp()",
+  "self.emit_assign(Place::new(v10.clone(),v11),v11,v8)",
+  "self.emit_jump(v6)",
+  "match(v4)",
+  "arm(Some(_))",
+  "self.new_block(v5)",
+  "v12=self.block(v13)",
+  "self.emit_assign(Place::new(v10.clone(),v11),v11,v12)",
+  "self.emit_jump(v6)",
+  "arm(_)",
+  "endmatch",
+  "self.new_block(v6)"
 ] := rfl
 
 /-- `whileLoop`: jump to the condition block; examinee temporary; condition lowered and stored on every iteration; switch; body; jump back. -/
 theorem source_while_loop : LowerOrder.whileLoop = [
   "self.emit_jump(v0)",
   "self.new_block(v0)",
-  "self.undropped_tmp()",
-  "self.expr(v1)",
-  "self.do_assign(Place::new(examinee.clone(),TyRef::BOOL),TyRef::BOOL,v2)",
-  "self.emit_switch(v3,vec![(1,lbl_body)],Some(lbl_cont))",
+  "v1=self.undropped_tmp()",
+  "v2=self.expr(v3)",
+  "self.do_assign(Place::new(v1.clone(),TyRef::BOOL),TyRef::BOOL,v2)",
+  "self.emit_switch(v1,vec![(1,v4)],Some(v5))",
   "self.new_block(v4)",
-  "self.block(v5)",
-  "self.assign_to_var(v2,TyRef::UNIT)",
+  "v6=self.block(v7)",
+  "self.assign_to_var(v6,TyRef::UNIT)",
   "self.emit_jump(v0)",
-  "self.new_block(v6)"
+  "self.new_block(v5)"
 ] := rfl
 
 /-- `forLoop`: the list expression is lowered once, before the loop; `get(idx)` per iteration. -/
 theorem source_for_loop : LowerOrder.forLoop = [
-  "self.undropped_tmp()",
-  "self.expr(v0)",
-  "self.assign_to_var(v1,v2)",
-  "self.assign_to_var(Value::Const(Literal::Integer(0,Some(IntType::U64)),TyRef::U64),TyRef::U64)",
-  "self.emit_jump(v3)",
-  "self.new_block(v4)",
-  "self.assign_to_var(Value::Const(Literal::Integer(1,Some(IntType::U64)),TyRef::U64,),TyRef::U64)",
-  "Value::BinOp{left:index_var.clone(),binop:ast::BinOp::Add,ty:TyRef::U64,right:one_var.clone()}",
-  "self.emit_assign(Place::new(index_var.clone(),TyRef::U64),TyRef::U64,v5)",
-  "self.emit_jump(v3)",
-  "self.new_block(v3)",
-  "self.find_method(TypeId::of::<ErasedList>(),\"get\")",
-  "self.assign_to_var(Value::Clone(Place::new(list_var,list_ty)),v2)",
-  "Value::CallRuntime{func_ref:v6,args:vec![new_list_var,index_var],mir_signature:v7,vtables:Vec::new()}",
-  "self.emit(Instruction::Assign{to:Place::new(opt_elem_var.clone(),opt_elem_ty),ty…)",
-  "self.undropped_tmp()",
-  "self.emit_assign(Place::new(discriminant.clone(),TyRef::U8),TyRef::U8,Value::Discriminant(opt_elem_var.clone()))",
-  "self.emit_switch(v8,vec![(0,lbl_body)],Some(lbl_cont))",
-  "self.new_block(v9)",
-  "self.do_assign(Place::new(elem_var,elem_ty),v10,Value::Clone(Place{var:opt_elem_var,root_ty:opt_elem_ty,projection:vec…)",
-  "self.block(v11)",
-  "self.assign_to_var(v12,TyRef::UNIT)",
-  "self.emit_jump(v4)",
-  "self.new_block(v13)"
+  "v0=self.undropped_tmp()",
+  "v1=self.expr(v2)",
+  "v3=self.assign_to_var(v1,v4)",
+  "v5=self.assign_to_var(Value::Const(Literal::Integer(0,Some(IntType::U64)),TyRef::U64),TyRef::U64)",
+  "self.emit_jump(v6)",
+  "self.new_block(v7)",
+  "v8=self.assign_to_var(Value::Const(Literal::Integer(1,Some(IntType::U64)),TyRef::U64,),TyRef::U64)",
+  "v9=Value::BinOp{left:v5.clone(),binop:ast::BinOp::Add,ty:TyRef::U64,right:v8.clone()}",
+  "self.emit_assign(Place::new(v5.clone(),TyRef::U64),TyRef::U64,v9)",
+  "self.emit_jump(v6)",
+  "self.new_block(v6)",
+  "v10=self.find_method(TypeId::of::<ErasedList>(),\"get\")",
+  "v11=self.assign_to_var(Value::Clone(Place::new(v3,v4)),v4)",
+  "Value::CallRuntime{func_ref:v10,args:vec![v11,v5],mir_signature:v12,vtables:Vec::new()}",
+  "self.emit(Instruction::Assign{to:Place::new(v0.clone(),v13),ty:v13,value:Value::CallRuntime{func_ref:v10,args:vec![v11,v5],mir_signature:v12,vtables:Vec::new(),},})",
+  "v14=self.undropped_tmp()",
+  "self.emit_assign(Place::new(v14.clone(),TyRef::U8),TyRef::U8,Value::Discriminant(v0.clone()))",
+  "self.emit_switch(v14,vec![(0,v15)],Some(v16))",
+  "self.new_block(v15)",
+  "self.do_assign(Place::new(v17,v18),v18,Value::Clone(Place{var:v0,root_ty:v13,projection:vec![Projection::VariantField(\"Some\".into(),0)],}))",
+  "v19=self.block(v20)",
+  "self.assign_to_var(v19,TyRef::UNIT)",
+  "self.emit_jump(v7)",
+  "self.new_block(v16)"
 ] := rfl
 
 /-- `block`: statements in order, then the final expression, materialised. -/
 theorem source_block : LowerOrder.block = [
-  "for(&block.stmts)",
-  "self.stmt(v0)",
-  "endfor",
-  "match(&block.last)",
-  "arm(Some(expr))",
-  "self.expr(v1)",
-  "arm(None)",
+  "loop(v0.stmts)",
+  "self.stmt(v1)",
+  "endloop",
+  "match(&v0.last)",
+  "arm(Some(_))",
+  "self.expr(v2)",
+  "arm(_)",
   "endmatch",
-  "self.assign_to_var(op.clone(),v2)",
-  "if",
-  "endif"
+  "v3=self.assign_to_var(v4.clone(),v5)"
 ] := rfl
 
 /-- `blockExpr`: `block`, then the result copied into a fresh temporary. -/
 theorem source_block_expr : LowerOrder.blockExpr = [
-  "self.block(v0)",
-  "self.undropped_tmp()",
-  "self.emit_assign(Place::new(res.clone(),ty),v1,v2)"
+  "v0=self.block(v1)",
+  "v2=self.undropped_tmp()",
+  "self.emit_assign(Place::new(v2.clone(),v3),v3,v0)"
 ] := rfl
 
 /-- `stmt`: `let`: value lowered then assigned to the variable; expression statement: lowered, materialised, dropped. -/
 theorem source_stmt : LowerOrder.stmt = [
-  "match(&**stmt)",
-  "arm(ast::Stmt::Let(ident,_,expr))",
-  "self.expr(v0)",
-  "self.do_assign(Place::new(to,ty),v1,v2)",
-  "arm(ast::Stmt::Expr(expr))",
-  "self.expr(v0)",
-  "self.assign_to_var(v3,v1)",
+  "match(&**v0)",
+  "arm(ast::Stmt::Let(_,_,_))",
+  "v1=self.expr(v2)",
+  "self.do_assign(Place::new(v3,v4),v4,v1)",
+  "arm(ast::Stmt::Expr(_))",
+  "v5=self.expr(v6)",
+  "v7=self.assign_to_var(v5,v8)",
   "endmatch"
 ] := rfl
 
 /-- `returnExpr`: the operand is lowered first; `accept`/`reject` wrap it with `make_enum`; then `return_value`. -/
 theorem source_return_expr : LowerOrder.returnExpr = [
-  "match(expr)",
-  "arm(Some(expr))",
-  "self.expr(v0)",
-  "arm(None)",
+  "match(v0)",
+  "arm(Some(_))",
+  "self.expr(v1)",
+  "arm(_)",
   "endmatch",
-  "match(return_kind)",
-  "arm(ast::ReturnKind::Return)",
-  "self.return_value(val.0)",
+  "match(v2)",
   "arm(ast::ReturnKind::Accept)",
-  "self.make_enum(v1,\"Accept\".into(),&[val])",
-  "self.return_value(v2)",
+  "v3=self.make_enum(v4,\"Accept\".into(),&[v5])",
+  "self.return_value(v3)",
   "arm(ast::ReturnKind::Reject)",
-  "self.make_enum(v1,\"Reject\".into(),&[val])",
-  "self.return_value(v2)",
+  "v6=self.make_enum(v7,\"Reject\".into(),&[v5])",
+  "self.return_value(v6)",
+  "arm(ast::ReturnKind::Return)",
+  "self.return_value(v5.0)",
   "endmatch"
 ] := rfl
 
 /-- `returnValue`: value materialised, then `return`. -/
 theorem source_return_value : LowerOrder.returnValue = [
-  "self.assign_to_var(v0,self.return_type)",
-  "self.emit_return(v1)"
+  "v0=self.assign_to_var(v1,self.return_type)",
+  "self.emit_return(v0)"
 ] := rfl
 
 /-- `questionMark`: operand lowered and materialised, discriminant read, switch to the return-None block. -/
 theorem source_question_mark : LowerOrder.questionMark = [
-  "self.expr(v0)",
-  "self.assign_to_var(v1,v2)",
-  "self.undropped_tmp()",
-  "self.emit_assign(Place::new(discriminant.clone(),TyRef::U8),TyRef::U8,Value::Discriminant(examinee.clone()))",
-  "self.emit_switch(v3,vec![(0,continue_lbl)],Some(lbl_return_none))",
-  "self.new_block(v4)",
-  "self.make_enum(v5,\"None\".into(),&[])",
-  "self.return_value(v6)",
-  "self.new_block(v7)"
+  "v0=self.expr(v1)",
+  "v2=self.assign_to_var(v0,v3)",
+  "v4=self.undropped_tmp()",
+  "self.emit_assign(Place::new(v4.clone(),TyRef::U8),TyRef::U8,Value::Discriminant(v2.clone()))",
+  "self.emit_switch(v4,vec![(0,v5)],Some(v6))",
+  "self.new_block(v6)",
+  "v7=self.make_enum(v8,\"None\".into(),&[])",
+  "self.return_value(v7)",
+  "self.new_block(v5)"
 ] := rfl
 
 /-- `notExpr`: operand lowered and materialised. -/
 theorem source_not_expr : LowerOrder.notExpr = [
-  "self.expr(v0)",
-  "self.assign_to_var(v1,TyRef::BOOL)"
+  "v0=self.expr(v1)",
+  "v2=self.assign_to_var(v0,TyRef::BOOL)"
 ] := rfl
 
 /-- `negate`: operand lowered and materialised. -/
 theorem source_negate : LowerOrder.negate = [
-  "self.expr(v0)",
-  "self.assign_to_var(v1,v2)"
+  "v0=self.expr(v1)",
+  "v2=self.assign_to_var(v0,v3)"
 ] := rfl
 
 /-- `access`: the record expression is lowered and materialised before the field is read. -/
 theorem source_access : LowerOrder.access = [
-  "self.expr(v0)",
-  "self.assign_to_var(v1,v2)"
+  "v0=self.expr(v1)",
+  "v2=self.assign_to_var(v0,v3)"
 ] := rfl
 
-/-- `record`: `record.fields.iter()` (source order, not reversed): each field is lowered AND stored (`assign_to_var`) before the next one, like the arguments of an enum constructor; then the result temporary is allocated and the fields are moved in, in the same order (fix bb2b488; `LowerS.lowerCtorArgs` + `storeFields`). -/
+/-- `record`: `loop(record.fields)` — the fields of the LITERAL, in source order, not reversed, not the fields of the type: each field is lowered AND stored (`assign_to_var`) before the next one, like the arguments of an enum constructor; then the result temporary is allocated and the fields are moved in, in the same order (fix bb2b488; `LowerS.lowerCtorArgs` + `storeFields`). -/
 theorem source_record : LowerOrder.record = [
-  "record.fields.iter",
-  "closure",
-  "self.expr(v0)",
-  "self.assign_to_var(v1,v2)",
-  "endclosure",
-  "record.fields.iter().map",
-  "….collect",
-  "self.tmp(v3)",
-  "for(fields)",
-  "self.do_assign(Place{var:to.clone(),root_ty:ty,projection:vec![Projection::Field(s)],…,v2,Value::Move(var))",
-  "endfor"
+  "loop(v0.fields)",
+  "v1=self.expr(v2)",
+  "v3=self.assign_to_var(v1,v4)",
+  "endloop",
+  "v5=self.tmp(v6)",
+  "loop(v7)",
+  "self.do_assign(Place{var:v5.clone(),root_ty:v6,projection:vec![Projection::Field(v8)],},v9,Value::Move(v10))",
+  "endloop"
 ] := rfl
 
 /-- `list`: `for expr in list` (source order): each element lowered, stored, pushed before the next. -/
 theorem source_list : LowerOrder.list = [
-  "self.tmp(v0)",
-  "self.find_method(TypeId::of::<ErasedList>(),\"new\")",
-  "Value::CallRuntime{func_ref:v1,args:Vec::new(),mir_signature:ty::Signature{parameter_types:Vec::new(),return_type:ty,},vtables:vec![inner]}",
-  "self.emit(Instruction::Assign{to:Place{var:tmp.clone(),root_ty:ty,projection:Vec…)",
-  "self.tmp(TyRef::UNIT)",
-  "for(list)",
-  "self.assign_to_var(v2,v0)",
-  "self.expr(v3)",
-  "self.undropped_tmp()",
-  "self.do_assign(Place::new(elem_var.clone(),elem_ty),v4,v5)",
-  "self.find_method(TypeId::of::<ErasedList>(),\"push\")",
-  "Value::CallRuntime{func_ref:v1,args:vec![list_var,elem_var],mir_signature:ty::Signature{parameter_types:vec![ty,inner],return_type:TyRef::UNIT,},vtables:Vec::new()}",
-  "self.emit(Instruction::Assign{to:Place{var:unit_tmp.clone(),root_ty:TyRef::UNIT,…)",
-  "endfor"
+  "v0=self.tmp(v1)",
+  "v2=self.find_method(TypeId::of::<ErasedList>(),\"new\")",
+  "Value::CallRuntime{func_ref:v2,args:Vec::new(),mir_signature:ty::Signature{parameter_types:Vec::new(),return_type:v1,},vtables:vec![v3]}",
+  "self.emit(Instruction::Assign{to:Place{var:v0.clone(),root_ty:v1,projection:Vec::new(),},ty:v1,value:Value::CallRuntime{func_ref:v2,args:Vec::new(),mir_signature:ty::Signature{parameter_types:Vec::new…",
+  "v4=self.tmp(TyRef::UNIT)",
+  "loop(v5)",
+  "v6=self.assign_to_var(v7,v1)",
+  "v8=self.expr(v9)",
+  "v10=self.undropped_tmp()",
+  "self.do_assign(Place::new(v10.clone(),v11),v11,v8)",
+  "v12=self.find_method(TypeId::of::<ErasedList>(),\"push\")",
+  "Value::CallRuntime{func_ref:v12,args:vec![v6,v10],mir_signature:ty::Signature{parameter_types:vec![v1,v3],return_type:TyRef::UNIT,},vtables:Vec::new()}",
+  "self.emit(Instruction::Assign{to:Place{var:v4.clone(),root_ty:TyRef::UNIT,projection:Vec::new(),},ty:TyRef::UNIT,value:Value::CallRuntime{func_ref:v12,args:vec![v6,v10],mir_signature:ty::Signature{par…",
+  "endloop"
 ] := rfl
 
 /-- `enumConstructor`: each argument is lowered AND stored (`assign_to_var`) before the next one (fix 6df857b). -/
 theorem source_enum_constructor : LowerOrder.enumConstructor = [
-  "arguments.iter",
-  "closure",
-  "self.expr(v0)",
-  "self.assign_to_var(v1,v2)",
-  "endclosure",
-  "arguments.iter().map",
-  "….collect",
-  "self.make_enum(v2,v3,&v4)"
+  "loop(v0)",
+  "v1=self.expr(v2)",
+  "v3=self.assign_to_var(v1,v4)",
+  "endloop",
+  "self.make_enum(v5,v6,&v7)"
 ] := rfl
 
 /-- `makeEnum`: discriminant set, then the fields assigned in order. -/
 theorem source_make_enum : LowerOrder.makeEnum = [
-  "variants.iter",
-  "closure",
-  "endclosure",
-  "self.tmp(v0)",
-  "self.emit_set_discriminant(to.clone(),v0,v1)",
-  "arguments.iter",
-  "arguments.iter().enumerate",
-  "for(arguments.iter().enumerate())",
-  "self.do_assign(Place{var:to.clone(),root_ty:ty,projection:vec![Projection::VariantFie…,*field_ty,value.clone())",
-  "endfor"
+  "v0=self.tmp(v1)",
+  "self.emit_set_discriminant(v0.clone(),v1,v2)",
+  "loop(v3)",
+  "self.do_assign(Place{var:v0.clone(),root_ty:v1,projection:vec![Projection::VariantField(v2,v4,)],},*v5,v6.clone())",
+  "endloop"
 ] := rfl
 
 /-- `fString`: `for part in parts` (source order): each part lowered, converted, appended before the next. -/
 theorem source_f_string : LowerOrder.fString = [
-  "closure",
-  "endclosure",
-  "self.assign_to_var(v0,TyRef::STRING)",
-  "self.find_method(v1,\"append\")",
-  "for(parts)",
-  "match(&part.node)",
-  "arm(ast::FStringPart::String(s))",
-  "arm(ast::FStringPart::Expr(expr))",
-  "self.expr(v2)",
-  "self.normalized_function_call(&v3,Some((val,ty)),&[])",
+  "v0=self.assign_to_var(v1,TyRef::STRING)",
+  "v2=self.find_method(v3,\"append\")",
+  "loop(v4)",
+  "match(&v5.node)",
+  "arm(ast::FStringPart::String(_))",
+  "arm(ast::FStringPart::Expr(_))",
+  "v6=self.expr(v7)",
+  "self.normalized_function_call(&v8,Some((v6,v9)),&[])",
   "endmatch",
-  "self.assign_to_var(v4,TyRef::STRING)",
-  "self.call_runtime(v5,Vec::new(),v6,vec![string.clone(),new_string])",
-  "self.do_assign(Place::new(string.clone(),TyRef::STRING),TyRef::STRING,v7)",
-  "endfor"
+  "v10=self.assign_to_var(v11,TyRef::STRING)",
+  "v12=self.call_runtime(v2,Vec::new(),v13,vec![v0.clone(),v10])",
+  "self.do_assign(Place::new(v0.clone(),TyRef::STRING),TyRef::STRING,v12)",
+  "endloop"
 ] := rfl
 
 /-- `assignToVar`: a `Move` is used as is, anything else is stored in a fresh temporary (`LowerS.atvCode/atvVar/atvNext`). -/
 theorem source_assign_to_var : LowerOrder.assignToVar = [
-  "if",
-  "return",
-  "endif",
-  "self.tmp(v0)",
-  "self.do_assign(Place::new(to.clone(),ty),v0,v1)"
+  "match(v0)",
+  "arm(Value::Move(_))",
+  "arm(_)",
+  "v1=self.tmp(v2)",
+  "self.do_assign(Place::new(v1.clone(),v2),v2,v0)",
+  "endmatch"
 ] := rfl
 
 /-- `doAssign`: emits the assignment at once. -/
 theorem source_do_assign : LowerOrder.doAssign = [
-  "if",
-  "endif",
   "self.emit_assign(v0,v1,v2)"
 ] := rfl
 
 /-- `functionLike`: the body block, its value materialised, `return` (`LowerS.lowerFn`). -/
 theorem source_function_like : LowerOrder.functionLike = [
   "self.new_block(v0)",
-  "for(&params.0)",
-  "endfor",
-  "for(&parameter_types)",
-  "endfor",
-  "parameter_types.iter",
-  "closure",
-  "endclosure",
-  "parameter_types.iter().map",
-  "….collect",
-  "self.block(v1)",
-  "self.assign_to_var(v2,v3)",
-  "self.emit_return(v4)"
+  "v1=self.block(v2)",
+  "v3=self.assign_to_var(v1,v4)",
+  "self.emit_return(v3)"
 ] := rfl
 
 /-- `matchExpr`: the examinee is lowered and materialised once; one guard chain per discriminant containing that variant's arms and the `_` arms in source order; arm bodies afterwards. -/
 theorem source_match_expr : LowerOrder.matchExpr = [
-  "arms.iter",
-  "arms.iter().enumerate",
-  "closure",
-  "match(&arm.pattern.node)",
-  "arm(Pattern::EnumVariant{variant,..})",
-  "variants.iter",
-  "closure",
-  "endclosure",
-  "arm(Pattern::Underscore)",
-  "endmatch",
-  "endclosure",
-  "arms.iter().enumerate().map",
-  "….collect",
-  "branches.iter",
-  "closure",
-  "endclosure",
-  "branches.iter().filter_map",
-  "branches.iter().filter_map(|(d,_,_)|*d).collect",
-  "all_discriminants.into_iter",
-  "closure",
-  "endclosure",
-  "all_discriminants.into_iter().map",
-  "….collect",
-  "all_discriminants.iter",
-  "closure",
-  "endclosure",
-  "all_discriminants.iter().map",
-  "….collect",
-  "branches.iter",
-  "closure",
-  "endclosure",
-  "branches.iter().filter",
-  "….collect",
-  "self.expr(v0)",
-  "self.assign_to_var(v1,v2)",
-  "self.undropped_tmp()",
-  "self.emit_assign(Place::new(discriminant.clone(),TyRef::U8),TyRef::U8,Value::Discriminant(examinee.clone()))",
+  "v0.iter().filter_map",
+  "v0.iter().filter",
+  "v1=self.expr(v2)",
+  "v3=self.assign_to_var(v1,v4)",
+  "v5=self.undropped_tmp()",
+  "self.emit_assign(Place::new(v5.clone(),TyRef::U8),TyRef::U8,Value::Discriminant(v3.clone()))",
+  "self.emit_switch(v5,v6,v7)",
+  "loop(v8)",
+  "v0.iter().filter",
+  "self.match_case(v3.clone(),v4,Some(&v9[v10]),v11,&v12,&v13)",
+  "endloop",
   "if",
-  "else",
+  "self.match_case(v3,v4,None,v14,&v15,&v13)",
   "endif",
-  "self.emit_switch(v3,v4,v5)",
-  "branches.iter",
-  "closure",
-  "endclosure",
-  "branches.iter().map",
-  "….collect",
-  "for(all_discriminants)",
-  "branches.iter",
-  "closure",
-  "endclosure",
-  "branches.iter().filter",
-  "….collect",
-  "self.match_case(examinee.clone(),v2,Some(&variants[discriminant]),v6,&v7,&v8)",
-  "endfor",
-  "if",
-  "self.match_case(v1,v2,None,v9,&v10,&v8)",
-  "endif",
-  "self.undropped_tmp()",
-  "for(branches)",
-  "if",
-  "fields.iter",
-  "fields.iter().zip",
-  "for(fields.iter().zip(&variant.1))",
-  "endfor",
-  "endif",
-  "self.new_block(arm_labels[&arm_index])",
-  "self.block(&arm.body)",
-  "self.emit_assign(Place::new(out.clone(),ty),v11,v12)",
-  "self.emit_jump(v13)",
-  "endfor",
-  "self.new_block(v13)"
+  "v16=self.undropped_tmp()",
+  "loop(v0)",
+  "self.new_block(v13[&v17])",
+  "v18=self.block(&v19.body)",
+  "self.emit_assign(Place::new(v16.clone(),v20),v20,v18)",
+  "self.emit_jump(v21)",
+  "endloop",
+  "self.new_block(v21)"
 ] := rfl
 
 /-- `matchCase`: per chain: for each arm in order, bind the fields, then the guard (lowered, materialised, switch to the arm / to the next guard). -/
 theorem source_match_case : LowerOrder.matchCase = [
   "self.new_block(v0)",
   "self.emit_jump(v1)",
-  "branches.iter",
-  "branches.iter().enumerate",
-  "for(branches.iter().enumerate())",
-  "self.new_block(v1)",
-  "if",
-  "fields.iter",
-  "fields.iter().zip",
-  "fields.iter().zip(&variant.1).enumerate",
-  "for(fields.iter().zip(&variant.1).enumerate())",
-  "self.do_assign(Place::new(var,field_ty),v2,Value::Clone(Place{var:examinee.clone(),root_ty:examinee_ty,projection…)",
-  "endfor",
-  "endif",
-  "if",
-  "self.expr(v3)",
-  "self.assign_to_var(v4,TyRef::BOOL)",
-  "self.emit_switch(v4,vec![(1,arm_lbl)],Some(intermediate_lbl))",
-  "self.new_block(v5)",
-  "self.emit_jump(v6)",
-  "else",
-  "self.emit_jump(v7)",
-  "endif",
-  "endfor"
+  "loop(v2)",
+  "self.new_block(v3)",
+  "match(&v4.pattern.node)",
+  "arm(Pattern::EnumVariant{fields:Some(_),variant:_,})",
+  "loop(v5.zip(&v6.1))",
+  "self.do_assign(Place::new(v7,v8),v8,Value::Clone(Place{var:v9.clone(),root_ty:v10,projection:vec![Projection::VariantField(v6.0,v11,)],}))",
+  "endloop",
+  "arm(_)",
+  "endmatch",
+  "match(&v4.guard)",
+  "arm(Some(_))",
+  "v12=self.expr(v13)",
+  "v14=self.assign_to_var(v12,TyRef::BOOL)",
+  "self.emit_switch(v14,vec![(1,v15)],Some(v16))",
+  "self.new_block(v16)",
+  "self.emit_jump(v17)",
+  "arm(_)",
+  "self.emit_jump(v15)",
+  "endmatch",
+  "endloop"
 ] := rfl
 
 /-- `desugaredBinop`: `l + r` on strings / lists, `ip / len`: left lowered and materialised, right lowered and materialised, result temporary, the runtime call stored at once (`LowerS.lowerE`, case `.concat`). -/
 theorem source_desugared_binop : LowerOrder.desugaredBinop = [
-  "self.find_method(v0,v1)",
-  "self.expr(v2)",
-  "self.assign_to_var(v2,v3)",
-  "self.expr(v4)",
-  "self.assign_to_var(v4,v5)",
-  "self.tmp(v6)",
-  "self.call_runtime(v7,Vec::new(),v8,vec![l,r])",
-  "self.do_assign(Place::new(tmp.clone(),return_type),v6,v9)"
+  "v0=self.find_method(v1,v2)",
+  "v3=self.expr(v4)",
+  "v5=self.assign_to_var(v3,v6)",
+  "v7=self.expr(v8)",
+  "v9=self.assign_to_var(v7,v10)",
+  "v11=self.tmp(v12)",
+  "v13=self.call_runtime(v0,Vec::new(),v14,vec![v5,v9])",
+  "self.do_assign(Place::new(v11.clone(),v12),v12,v13)"
 ] := rfl
 
 /-- `binopStr`: `+` on strings is `desugared_binop(append)`. -/
 theorem source_binop_str : LowerOrder.binopStr = [
-  "match(binop)",
+  "match(v0)",
   "arm(ast::BinOp::Add)",
-  "self.desugared_binop(v0,\"append\",Type::string(),(l,Type::string()),(r,Type::string()))",
+  "self.desugared_binop(v1,\"append\",Type::string(),(v2,Type::string()),(v3,Type::string()))",
   "arm(_)",
   "endmatch"
 ] := rfl
 
 /-- `callRuntime`: builds the lazy `Value::CallRuntime` over already materialised arguments. -/
 theorem source_call_runtime : LowerOrder.callRuntime = [
-  "for(&args)",
-  "endfor",
   "Value::CallRuntime{func_ref:v0,args:v1,mir_signature:v2,vtables:v3}"
 ] := rfl
 
